@@ -14,7 +14,7 @@ RULE = ("Plans: mechanisms that contain FarEnough / NBC_FarEnough (both factorie
         "filtered against demes that have moved.")
 NONTRIVIAL_RULE = ">= 1 accepted seed was measured against the recomputed centroid of >= 1 existing deme that had run >= 1 metaepoch since creation"
 EXPECTED_PROBES = ["c09-centroid-reads", "c09-accepted-seed-vs-sibling", "c09-sibling-had-moved", "c09-filter-rejected",
-                   "c09-centroid-of-cma", "c09-centroid-of-local", "c09-centroid-of-sea-de-shade"]
+                   "c09-centroid-of-cma", "c09-centroid-of-local", "c09-centroid-of-sea-de-shade", "c09-mechanism-reused"]
 ASSUMPTIONS = ["threshold comparisons within relative 1e-9 of the threshold get no verdict",
                "the monitor's centroid read is non-perturbing: instance state changed by the accessor is restored"]
 
@@ -33,6 +33,12 @@ def gen(seed, tier):
         if not any(f["kind"] in ("far_enough", "nbc_far_enough") for f in sp["deme_filters"]):
             minr = min(h - l for l, h in pl["box"])
             sp["deme_filters"].insert(0, {"kind": "far_enough", "min_distance": minr * 0.05, "norm_ord": 2})
+    if "levels" in pl and seed % 4 == 0:
+        pl["reuse_mechanism"] = True
+        # finished demes in the later run make a leaked per-deme-id cache visible
+        for l in pl["levels"][1:]:
+            if l["lsc"]["kind"] == "dont_stop":
+                l["lsc"] = {"kind": "metaepoch_limit", "limit": 1 + seed % 3}
     return pl
 
 
@@ -142,6 +148,44 @@ class C09Monitor(Monitor):
 
 
 MONITORS = [C09Monitor]
+
+
+def run(plan):
+    """Plans flagged ``reuse_mechanism`` run twice (other seeds first) through ONE SproutMechanism object, as
+    a user who keeps a module-level mechanism does (test/config.py): state a filter keeps must not leak."""
+    import copy
+    import sys
+
+    from .. import build, runner
+
+    mod = sys.modules[__name__]
+    if not plan.get("reuse_mechanism") or "levels" not in plan:
+        return runner.default_run(mod, plan)
+    build.SHARED_MECHANISMS.clear()
+    try:
+        warm = copy.deepcopy(plan)
+        warm["share_key"] = "c09"
+        warm["prior_seed"] = (plan["prior_seed"] + 17) % (2 ** 31)
+        if warm["options"].get("random_seed") is not None:
+            warm["options"]["random_seed"] = warm["options"]["random_seed"] + 1
+        warm["faults"] = {}
+        main = copy.deepcopy(plan)
+        main["share_key"] = "c09"
+        w1 = build.execute(warm, MONITORS)
+        v1 = list(w1.violations)
+        w1.dispose()
+        w = build.execute(main, MONITORS)
+        try:
+            w.probe("c09-mechanism-reused")
+            for v in v1:
+                v = dict(v)
+                v["detail"] = dict(v["detail"], in_warm_up_run=True)
+                w.violations.append(v)
+            return runner.summarize_world(w, mod, plan)
+        finally:
+            w.dispose()
+    finally:
+        build.SHARED_MECHANISMS.clear()
 
 
 def nontrivial(w):
